@@ -21,11 +21,22 @@
 //                 the next client is accepted and served, connect after stop() is refused
 //   resolver    : only names that occur in requests are looked up (a literal never reaches the resolver table)
 //   stdout log  : the proxy's own "async_connect: <addr>:<port>" line is captured to observe "port 80 by default"
+//
+// BAD PORTS (absolute URIs whose ":port" is not a port number: not numeric, empty, digits mixed with other
+// characters, signs, blanks, values that overflow int / long long, very long digit strings; see make_bad_port()).
+// The statement does not say which of its two error outcomes such a request gets, so the oracle is set-valued:
+// the client must get a 503 or be closed by the proxy (or, when the proxy reads the text as a port on which the
+// named host listens, the origin's bytes verbatim); the proxy must only connect to the named host; nothing may
+// crash; no exception may leave simulation::run() (key exception-escaped-run:<type>); and the next client must be
+// accepted and served like after any other client. Random mode turns about 1 in 8 plain clients into such a client
+// (decided by a separate random stream, --badport 0 switches it off); mode cuts has four such streams.
 #include "vf.hpp"
 #include "simulator/http_proxy.hpp"
 
 #include <deque>
 #include <sys/syscall.h>
+#include <cxxabi.h>
+#include <typeinfo>
 
 using namespace vf;
 
@@ -139,12 +150,16 @@ struct ClientPlan
 	bool closes_early = false;    // origin closes before all responses are out
 	int abort_piece = -1;         // >= 0: the client hangs up after releasing this piece (opt-in extension, --abort 1)
 	std::int64_t abort_delay = 0;
+	int odd = -1;                 // >= 0: index of the request whose URI has a ":port" that is not a port number
+	std::string odd_form, odd_text; // class of the bad port (stable name) and its literal text
 	std::string str() const;
 };
 
 char const* target_name(int t) { static char const* n[] = {"reachable", "refused", "unresolvable", "default-port"}; return n[t]; }
 char const* tail_name(int t) { static char const* n[] = {"", "+malformed", "+nonabsolute"}; return n[t]; }
-std::string kind_name(ClientPlan const& p) { return std::string(target_name(p.target)) + tail_name(p.tail); }
+std::string kind_name(ClientPlan const& p) { return std::string(target_name(p.target)) + tail_name(p.tail) + (p.odd >= 0 ? "+bad-port" : ""); }
+
+std::string printable(std::string const& s, std::size_t max = 160);
 
 std::string ClientPlan::str() const
 {
@@ -157,6 +172,7 @@ std::string ClientPlan::str() const
 	s += fmt(" end=%s next=%s", end_mode ? "on-complete" : "quiescence", next_delay < 0 ? "quiescence" : fmt("+%" PRId64 "us", next_delay / 1000).c_str());
 	if (closes_early) s += " origin-closes-early";
 	if (abort_piece >= 0) s += fmt(" CLIENT-HANGS-UP after piece %d +%" PRId64 "us", abort_piece, abort_delay / 1000);
+	if (odd >= 0) s += fmt(" BAD-PORT(%s) '%s' in request %d", odd_form.c_str(), printable(odd_text, 40).c_str(), odd);
 	s += " [";
 	for (std::size_t i = 0; i < reqs.size(); ++i) s += (i ? " | " : "") + reqs[i].what;
 	s += "]";
@@ -171,7 +187,7 @@ std::string trim_ows(std::string const& s)
 	while (e > b && (s[e - 1] == ' ' || s[e - 1] == '\t' || s[e - 1] == '\r' || s[e - 1] == '\n')) --e;
 	return s.substr(b, e - b);
 }
-std::string printable(std::string const& s, std::size_t max = 160)
+std::string printable(std::string const& s, std::size_t max)
 {
 	std::string r;
 	for (std::size_t i = 0; i < s.size() && i < max; ++i)
@@ -288,6 +304,7 @@ struct World
 	std::string desc;
 	int cur_client = -1;
 	std::uint64_t origin_requests = 0;
+	bool dead = false;            // an exception left simulation::run(): the simulation was aborted by the library
 
 	World(Args const& a_, Rng& r) : a(a_), rng(r) {}
 
@@ -331,9 +348,47 @@ struct World
 
 	void run_window()
 	{
+		if (dead) return;
 		cap().begin();
-		runner->run();
+		try { runner->run(); }
+		catch (std::exception const& e) { cap().end(); escaped(typeid(e).name(), e.what()); return; }
+		catch (...) { cap().end(); escaped(nullptr, ""); return; }
 		cap().end();
+	}
+
+	// An exception came out of simulation::run(). Nothing in this engine throws, so it was thrown inside the library
+	// (the proxy's handlers run there) and nobody caught it. simulation::run() has cancelled every timer and
+	// acceptor and stopped the simulation on the way out, so the case cannot go on: the client being served got
+	// neither a 503 nor a close and no later client can be accepted.
+	void escaped(char const* mangled, std::string const& what)
+	{
+		dead = true;
+		std::string type = "non-standard-exception";
+		if (mangled)
+		{
+			int st = 0;
+			char* dn = abi::__cxa_demangle(mangled, nullptr, nullptr, &st);
+			type = st == 0 && dn ? dn : mangled;
+			std::free(dn);
+		}
+		int const act = active_client();
+		std::string d = "an exception of type " + type + " (what: '" + printable(what, 80) + "') left simulation::run()";
+		if (act >= 0)
+		{
+			ClientPlan const& p = plans[std::size_t(act)];
+			Cli const& c = *cli[std::size_t(act)];
+			d += fmt(" while client %d (%s) was being served: %zu of %zu request bytes written, %zu bytes received, connection %s"
+				, act, kind_name(p).c_str(), c.tx_off, p.stream.size(), c.rx.size(), c.ended_by_peer ? "closed by the proxy" : "neither answered nor closed");
+			if (p.odd >= 0) d += "; request " + std::to_string(p.odd) + " is '" + printable(p.reqs[std::size_t(p.odd)].raw, 90) + "' (port class " + p.odd_form + ")";
+			int later = 0; for (std::size_t j = std::size_t(act) + 1; j < cli.size(); ++j) if (!cli[j]->started) ++later;
+			d += fmt("; %d later client(s) can no longer be accepted (the library aborted the simulation)", later);
+		}
+		VLOG("  VIOLATION exception-escaped-run: %s", d.c_str());
+		// reported at once: whatever happens while this world is taken down, the verdict is out
+		R().violation(PROP, "exception-escaped-run:" + type, d);
+		R().count("exceptions_escaped_run");
+		// asserts are on and arming a timer in a stopped simulation is one: let the teardown close sockets
+		API(sim->restart());
 	}
 
 	// ------------------------------------------------ origin server
@@ -628,7 +683,7 @@ struct World
 	{
 		Cli& c = *cli[std::size_t(i)];
 		ClientPlan& p = plans[std::size_t(i)];
-		if (c.ended || p.end_mode != 1 || p.target != T_REACH || p.tail != TL_NONE) return;
+		if (c.ended || p.end_mode != 1 || p.target != T_REACH || p.tail != TL_NONE || p.odd >= 0) return;
 		if (c.tx_off < p.stream.size() || c.rx.size() < p.expect.size()) return;
 		VLOG("[%" PRId64 "] client %d: has all expected bytes, closes", now_ns(), i);
 		c.self_closed = true;
@@ -670,6 +725,7 @@ struct World
 		for (std::size_t iter = 0; iter < 4 * cli.size() + 8; ++iter)
 		{
 			run_window();
+			if (dead) return;
 			int const act = active_client();
 			if (act >= 0)
 			{
@@ -692,6 +748,7 @@ struct World
 	{
 		API(proxy->stop());
 		run_window();
+		if (dead) return;
 		probe.reset(new Cli());
 		probe->sock.reset(new ip::tcp::socket(*ios_c));
 		OpPtr op = ops.make("tcp.connect", 99);
@@ -699,6 +756,7 @@ struct World
 			probe_done = true; probe_ok = !ec; probe_ec = ec.value();
 		})));
 		run_window();
+		if (dead) return;
 		if (probe_done && !probe_ok) R().count("connects_refused_after_stop");
 		else if (probe_done) viol("connect-after-stop-accepted", "a connect to the proxy's port completed successfully after stop()");
 		else viol("connect-after-stop-not-refused", "a connect to the proxy's port after stop() is neither refused nor completed: the port is still bound and listening");
@@ -884,6 +942,86 @@ void choose_target(World& w, Setup const& s, ClientPlan& p, int target)
 }
 
 std::string authority_of(ClientPlan const& p) { return p.host + (p.port ? ":" + std::to_string(p.port) : ""); }
+
+// ---------------------------------------------------------------- bad ports
+// Text for the ":port" of an absolute URI that is not a port number. `nominal` is the port the other requests
+// of the client name (80 when they name none): digits that occur in the text are those of `nominal`, so that a
+// proxy which reads a number out of the text ends up at the port the plan already knows about (listening or not)
+// and never at some other listening port. `blank` = the text contains a space, i.e. the request line has four
+// fields and the proxy's parser ends the URI at "host:".
+struct BadPort { std::string form, text; bool blank = false; };
+
+BadPort make_bad_port(Rng& r, int nominal, std::size_t room)
+{
+	std::string const D = std::to_string(nominal);
+	BadPort b;
+	auto digits = [&](std::size_t n, char c) { return std::string(std::min(n, room > 200 ? room - 200 : std::size_t(20)), c); };
+	static std::vector<std::size_t> const lens = {20, 40, 100, 1000, 4000};
+	switch (r.choose(18))
+	{
+		case 0: { static std::vector<std::string> const v = {"abc", "x", "port", "NaN", "http", "o"}; b.form = "non-numeric"; b.text = r.pick(v); break; }
+		case 1: b.form = "empty"; break;
+		case 2: { static std::vector<std::string> const v = {"abc", "x", "e", "_"}; b.form = "digits-then-letters"; b.text = D + r.pick(v); break; }
+		case 3: { static std::vector<std::string> const v = {"abc", "p", "x"}; b.form = "letters-then-digits"; b.text = r.pick(v) + D; break; }
+		case 4: b.form = "leading-tab"; b.text = "\t" + D; break;
+		case 5: b.form = "leading-space"; b.text = " " + D; b.blank = true; break;
+		case 6: b.form = "plus-sign"; b.text = "+" + D; break;
+		case 7: { b.form = "negative"; int k = r.choose(3); b.text = k == 0 ? "-1" : k == 1 ? "-" + D : "-0"; break; }
+		case 8: { static std::vector<std::string> const v = {"-", "+", "+-", "--1"}; b.form = "sign-only"; b.text = r.pick(v); break; }
+		case 9:
+		{
+			b.form = "overflows-int";
+			static std::vector<std::string> const v = {"2147483648", "4294967296", "99999999999", "4294967295", "-2147483649", "9223372036854775807", "-9223372036854775808"};
+			if (r.coin(1, 4)) b.text = std::to_string(4294967296ll * r.range(1, 1000) + nominal); // the low 32 bits are the nominal port
+			else b.text = r.pick(v);
+			break;
+		}
+		case 10:
+		{
+			b.form = "overflows-int64";
+			static std::vector<std::string> const v = {"9223372036854775808", "18446744073709551615", "18446744073709551616", "18446744073709551696"
+				, "99999999999999999999", "-9223372036854775809", "340282366920938463463374607431768211456"};
+			b.text = r.pick(v);
+			break;
+		}
+		case 11: { b.form = "very-long-digit-string"; static char const cs[] = {'9', '1', '7', '0'}; char const c = r.pick(cs); b.text = digits(r.pick(lens), c); break; }
+		case 12: b.form = "leading-zeros"; b.text = digits(r.pick(lens), '0') + D; break;
+		case 13: { char h[16]; std::snprintf(h, sizeof(h), r.coin() ? "0x%x" : "0X%X", unsigned(nominal)); b.form = "hexadecimal"; b.text = h; break; }
+		case 14: { static std::vector<std::string> const v = {".0", ".5", "e0", ","}; b.form = "digits-then-punctuation"; b.text = D + r.pick(v) + (r.coin() ? D : ""); break; }
+		case 15: { b.form = "percent-encoded"; for (char c : D) b.text += fmt("%%%02X", unsigned(c)); break; }
+		case 16: { static std::vector<std::string> const v = {"\x01", "\x7f", "\xff\xfe", "\x80" "80", "\v"}; b.form = "control-or-high-bytes"; b.text = r.pick(v); break; }
+		default: { static std::vector<std::string> const v = {"*", "[", "%", "\\", "!", "$", "~"}; b.form = "punctuation"; b.text = r.pick(v) + (r.coin() ? D : ""); break; }
+	}
+	return b;
+}
+
+// Turns a plain client (no invalid tail) into one with a bad port in one of its requests. Everything else about
+// the request stays as generated: method, path, headers, scripted response. Decisions come from `r`, a stream of
+// their own, so that the clients that are not turned stay exactly what they were.
+void make_bad_port_client(Rng& r, ClientPlan& p)
+{
+	if (p.reqs.empty() || p.tail != TL_NONE) return;
+	std::string const authority = authority_of(p);
+	if (p.reqs.size() > 1 && r.coin(1, 3)) p.reqs.resize(1); // alone
+	std::size_t total = 0; for (auto const& q : p.reqs) total += q.raw.size();
+	BadPort const b = make_bad_port(r, p.port ? p.port : 80, total < 39000 ? 39000 - total : 0);
+	int const n = int(p.reqs.size());
+	int pos = 0;
+	if (n > 1) { int const k = r.choose(3); pos = k == 0 ? 0 : k == 1 ? n - 1 : r.choose(n); }
+	// A request line with a blank inside the URI has four fields: it is malformed as a whole and must not travel
+	// to an origin in any form. It goes first, and the client's target becomes "cannot be connected", so that the
+	// origins expect nothing from this client.
+	if (b.blank) pos = 0;
+	Req& q = p.reqs[std::size_t(pos)];
+	std::size_t const at = q.method.size() + 1 + 7;
+	if (q.raw.compare(at, authority.size(), authority) != 0) return; // (cannot happen: make_valid() wrote it there)
+	q.raw.replace(at, authority.size(), p.host + ":" + b.text);
+	q.what += " PORT=" + b.form;
+	p.odd = pos; p.odd_form = b.form; p.odd_text = b.text;
+	for (auto& x : p.reqs) x.resp.close_after = -1;
+	// "no port given" no longer describes this client; with a blank see above
+	if (p.target == T_DEFPORT || (b.blank && p.target == T_REACH)) { p.target = T_REFUSED; p.why503 = "bad-port"; }
+}
 
 Req random_valid(World& w, ClientPlan const& p, int ci, int ri, std::size_t budget)
 {
@@ -1082,7 +1220,65 @@ void evaluate(World& w)
 		if (c.w_failed && !c.ended_by_peer && p.tail == TL_NONE && p.target == T_REACH)
 			w.viol("client-write-failed", who + ": writing the request stream failed although the proxy did not close the connection");
 
-		if (p.target == T_REACH && p.tail == TL_NONE)
+		bool bad_port_relayed = false;
+		if (p.odd >= 0)
+		{
+			// A ":port" that is not a port number. The statement gives two error outcomes (503, close) and does not say
+			// which one applies, nor how much of the text a proxy may read as a number: every one of these is accepted,
+			//   (a) all scripted responses, byte for byte (the proxy took a port out of the text on which the named host
+			//       listens, or sent the request down the connection it already had; what reached the origin was
+			//       compared there like any other request),
+			//   (b) a 503 (after a prefix of the scripted responses),
+			//   (c) the proxy closing the connection (after a prefix of the scripted responses),
+			// and nothing else: not silence with the connection left open, not bytes of any other origin.
+			std::string const form = p.odd_form;
+			R().count("bad_port_clients_run");
+			R().count(("bad_port_form_" + form).c_str());
+			R().count(p.reqs.size() == 1 ? "bad_port_request_alone" : p.odd == 0 ? "bad_port_request_before_good_ones"
+				: std::size_t(p.odd) + 1 == p.reqs.size() ? "bad_port_request_behind_good_ones" : "bad_port_request_between_good_ones");
+			R().count(p.hk == H_V4 ? "bad_port_host_ipv4_literal" : p.hk == H_V6 ? "bad_port_host_ipv6_literal" : "bad_port_host_name");
+			std::size_t m = 0;
+			while (m < c.rx.size() && m < p.expect.size() && c.rx[m] == p.expect[m]) ++m;
+			if (m < c.rx.size())
+			{
+				// a response of the proxy's own shares "HTTP/1.1 " with the head of the next scripted response
+				std::size_t b = 0, off = 0;
+				for (int f : p.fwd) { off += p.reqs[std::size_t(f)].resp.bytes.size(); if (off <= m) b = off; }
+				if (m - b <= 9) m = b;
+			}
+			std::string const X = c.rx.substr(m);
+			if (!X.empty() && X.compare(0, 7, "HTTP/1.") != 0) relay_mismatch(w, int(i), c.rx, p.expect, ":bad-port");
+			else R().count("response_bytes_verified", m);
+			if (p.target == T_REACH && X.empty() && m == p.expect.size() && !p.expect.empty())
+			{
+				bad_port_relayed = true;
+				R().count("bad_port_clients_served_by_the_origin");
+			}
+			else if (is_503(X)) R().count(c.ended_by_peer ? "bad_port_clients_answered_503_and_closed" : "bad_port_clients_answered_503");
+			else if (c.ended_by_peer) R().count("bad_port_clients_closed_without_response");
+			else
+				w.viol("bad-port-neither-503-nor-close:" + form, who + ": request " + std::to_string(p.odd) + " is '" + printable(p.reqs[std::size_t(p.odd)].raw, 90)
+					+ fmt("' (%zu of %zu request bytes written); the client received %zu bytes ('%s'), no 503, and the proxy left the connection open until the simulation was quiescent [%zu of %zu requests reached the origin]"
+						, c.tx_off, p.stream.size(), c.rx.size(), printable(c.rx, 40).c_str(), c.fwd_seen, p.fwd.size()));
+			// "connects to the named host": whatever it made of the port, the address is that of the named host
+			if (!log_attributable) R().count("bad_port_log_not_attributable");
+			else
+			{
+				std::size_t k = 0; for (std::size_t j = 0; j < i; ++j) if (w.cli[j]->connected) ++k;
+				if (seg[k].empty()) R().count("bad_port_proxy_did_not_connect");
+				for (auto const& l : seg[k])
+				{
+					std::string const pre = p.addr_text + ":";
+					bool ok = !p.addr_text.empty() && l.compare(0, pre.size(), pre) == 0 && l.size() > pre.size();
+					for (std::size_t x = pre.size(); ok && x < l.size(); ++x) if (!std::isdigit(static_cast<unsigned char>(l[x]))) ok = false;
+					if (!ok) { w.viol("bad-port-connect-to-other-host", who + ": host '" + p.host + "' port text '" + printable(p.odd_text, 40) + "': the proxy logged async_connect to '" + l + "', the named host is '" + p.addr_text + "'"); break; }
+					std::string const port = l.substr(pre.size());
+					R().count(port == "0" ? "bad_port_proxy_connected_to_port_0" : port == std::to_string(p.port ? p.port : 80) ? "bad_port_proxy_connected_to_nominal_port" : "bad_port_proxy_connected_to_another_port");
+				}
+			}
+			if (w.viols.size() == viols_before) R().count("bad_port_clients_verified");
+		}
+		else if (p.target == T_REACH && p.tail == TL_NONE)
 		{
 			if (c.rx == p.expect)
 			{
@@ -1140,7 +1336,7 @@ void evaluate(World& w)
 		}
 
 		// "port 80 by default": the only direct observation is the proxy's own log line
-		if (p.target == T_DEFPORT)
+		if (p.target == T_DEFPORT && p.odd < 0)
 		{
 			if (!log_attributable) R().count("default_port_log_not_attributable");
 			else
@@ -1159,9 +1355,10 @@ void evaluate(World& w)
 		{
 			R().count("next_clients_served");
 			if (prev_error_kind) R().count("next_clients_served_after_error_or_close");
+			if (w.plans[i - 1].odd >= 0) R().count("next_clients_served_after_bad_port");
 		}
 		prev = kind_name(p);
-		prev_error_kind = !(p.target == T_REACH && p.tail == TL_NONE && !p.closes_early);
+		prev_error_kind = !(p.target == T_REACH && p.tail == TL_NONE && !p.closes_early) || (p.odd >= 0 && !bad_port_relayed);
 	}
 	// the resolver must only have been asked for names that occur in requests
 	for (auto const& l : w.net.lookups)
@@ -1184,8 +1381,10 @@ void emit(World& w)
 void finish_case(World& w, bool with_stop)
 {
 	w.run_clients();
-	if (with_stop) w.stop_and_probe();
-	evaluate(w);
+	if (with_stop && !w.dead) w.stop_and_probe();
+	// (after an exception out of run() the verdict is out already and nothing that was left unfinished can be judged)
+	if (!w.dead) evaluate(w);
+	else R().count("cases_cut_short_by_escaped_exception");
 	if (w.a.verbose) std::fprintf(stderr, "---- proxy log ----\n%s-------------------\n", cap().text.c_str());
 	std::uint64_t h = hstr(w.desc);
 	for (auto const& c : w.cli) h = hcomb(h, c->rx.size() * 4 + (c->ended_by_peer ? 1 : 0) + (c->connected ? 2 : 0));
@@ -1201,7 +1400,7 @@ void finish_case(World& w, bool with_stop)
 }
 
 // ---------------------------------------------------------------- mode "cuts": bounded exhaustive
-struct Scen { char const* name; int target, tail, hk; char const* host; int port; std::vector<std::string> reqs; };
+struct Scen { char const* name; int target, tail, hk; char const* host; int port; std::vector<std::string> reqs; int bad_port_req; /* 1-based, 0 = none */ char const* bad_port_form; };
 
 std::vector<Scen> const& scenarios()
 {
@@ -1221,6 +1420,11 @@ std::vector<Scen> const& scenarios()
 		{"single-v4-port-65535", T_REACH, TL_NONE, H_V4, "10.0.0.3", 65535, {"GET http://10.0.0.3:65535/ HTTP/1.1\r\n\r\n"}},
 		{"defport-v6", T_DEFPORT, TL_NONE, H_V6, "[2001:db8::6]", 0, {"GET http://[2001:db8::6]/ HTTP/1.1\r\n\r\n"}},
 		{"port-out-of-range", T_REACH, TL_MALFORMED, H_V4, "10.0.0.3", 8080, {"GET http://10.0.0.3:70000/ HTTP/1.1\r\n\r\n"}},
+		// ":port" is not a port number (appended, so that the case numbers of the streams above stay what they were)
+		{"bad-port-letters-v4", T_REFUSED, TL_NONE, H_V4, "10.0.0.3", 0, {"G http://10.0.0.3:ab/ HTTP/1.1\r\n\r\n"}, 1, "non-numeric"},
+		{"bad-port-empty-named", T_REFUSED, TL_NONE, H_NAME, "a", 0, {"G http://a:/ HTTP/1.1\r\n\r\n"}, 1, "empty"},
+		{"bad-port-overflow-v6", T_REFUSED, TL_NONE, H_V6, "[2001:db8::6]", 0, {"G http://[2001:db8::6]:99999999999 HTTP/1.1\r\n\r\n"}, 1, "overflows-int"},
+		{"named+bad-port", T_REACH, TL_NONE, H_NAME, "a", 8080, {"G http://a:8080/1 HTTP/1.1\r\n\r\n", "G http://a:x/2 HTTP/1.1\r\n\r\n"}, 2, "non-numeric"},
 	};
 	return s;
 }
@@ -1290,6 +1494,13 @@ void case_cuts(Args const& a, std::uint64_t c)
 		p.origin = sc.hk == H_V6 ? 1 : 0;
 		p.addr_text = sc.hk == H_V6 ? "2001:db8::6" : "10.0.0.3";
 		p.why503 = sc.target == T_DEFPORT ? (sc.hk == H_V6 ? "default-port-v6-literal" : "default-port-v4-literal") : sc.target == T_REFUSED ? "no-listener-on-port" : "name-not-found";
+		if (sc.bad_port_req > 0)
+		{
+			p.odd = sc.bad_port_req - 1; p.odd_form = sc.bad_port_form; p.why503 = "bad-port";
+			std::string const& r = sc.reqs[std::size_t(p.odd)];
+			std::size_t const b = r.find(':', r.find(sc.host) + std::strlen(sc.host)) + 1;
+			p.odd_text = r.substr(b, r.find_first_of("/ ", b) - b);
+		}
 		for (std::size_t i = 0; i < sc.reqs.size(); ++i)
 		{
 			Req rq = parse_fixed(sc.reqs[i]);
@@ -1328,6 +1539,8 @@ void case_cuts(Args const& a, std::uint64_t c)
 void case_random(Args const& a, std::uint64_t c)
 {
 	Rng rng(hcomb(hcomb(a.seed, 0xC18), c));
+	Rng brng(hcomb(hcomb(a.seed, 0xC18B), c)); // decisions about bad ports only
+	bool const bad_ports = a.geti("badport", 1) != 0;
 	World w(a, rng);
 	Setup s;
 	static std::vector<int> const pp = {8080, 1024, 3000, 49152, 65534, 65535};
@@ -1378,6 +1591,7 @@ void case_random(Args const& a, std::uint64_t c)
 				default: q.resp.close_after = long(rng.range(1, std::int64_t(q.resp.bytes.size()))); break;
 			}
 		}
+		if (bad_ports && p.tail == TL_NONE && brng.coin(1, 6)) make_bad_port_client(brng, p);
 		finish_plan(p);
 		random_cuts(w, p);
 		// (a client whose origin hangs up early cannot know when it has everything: it stays until the proxy closes or quiescence)
